@@ -55,9 +55,10 @@ func (cd caseDef) storeJSON() string {
 }
 
 // spec is the documented rule (property C19): a permission granted to "*" (or
-// "all" granted to "*") needs no authentication at all; otherwise the user must
-// exist, the password must match, and the user or "*" must hold the permission
-// or "all".
+// "all" granted to "*") needs no authentication at all; otherwise a username
+// must have been supplied, the user must exist, the password must match, and the
+// user or "*" must hold the permission or "all". An entry of the credentials
+// file without a username therefore authorizes nobody.
 func (cd caseDef) spec(user, pass, perm string) bool {
 	has := func(name, p string) bool {
 		var u *userDef
@@ -133,9 +134,21 @@ type pres struct {
 }
 
 func (cd caseDef) presentations() []pres {
-	out := []pres{{Name: "none", None: true}, {Name: "unknown-user", User: "ghost", Pass: "pw-u1"}}
+	// "empty-credentials" differs from "none" on the wire: an Authorization header
+	// carrying Basic auth of ":" / a Credentials message with empty fields, instead
+	// of no header / no message.
+	out := []pres{{Name: "none", None: true}, {Name: "empty-credentials", User: "", Pass: ""}, {Name: "unknown-user", User: "ghost", Pass: "pw-u1"}}
 	for _, u := range cd.Users {
 		if u.Name == "*" {
+			continue
+		}
+		if u.Name == "" {
+			// an entry without a username: present its password (and a wrong one) with
+			// an empty username
+			out = append(out, pres{Name: "wrong-password:(nameless)", User: "", Pass: u.Pass + "x"})
+			if u.Pass != "" { // with an empty password this is "empty-credentials"
+				out = append(out, pres{Name: "right-password:(nameless)", User: "", Pass: u.Pass})
+			}
 			continue
 		}
 		out = append(out, pres{Name: "wrong-password:" + u.Name, User: u.Name, Pass: u.Pass + "x"})
